@@ -154,10 +154,18 @@ type StepInfo struct {
 	PrevBest *refmodel.Node
 }
 
+// ViaWire makes Step deliver headers through the wire codec (as a peer does) instead of calling Chains.Add with a
+// hand-built domain struct. Set per process by checks that want the P2P ingestion path.
+var ViaWire func(h refmodel.Hdr) bool
+
 // Step submits h to the store and then to the model.
 func Step(s *rig.Stack, m *refmodel.Model, h refmodel.Hdr) StepInfo {
 	si := StepInfo{PrevBest: m.Best()}
-	si.Res = s.Add(h)
+	if ViaWire != nil && ViaWire(h) {
+		si.Res = s.AddViaWire(h)
+	} else {
+		si.Res = s.Add(h)
+	}
 	si.Outcome, si.Node, si.Reorg = m.Submit(h)
 	return si
 }
